@@ -282,6 +282,8 @@ func (fa *FuncAnalysis) phiCorrelated(iff *ssa.If, takenTrue bool, depth int) []
 	return out
 }
 
+var helperDepth int
+
 func (fa *FuncAnalysis) guardsOfBlock(b *ssa.BasicBlock, depth int) []Guard {
 	var out []Guard
 	for d := b.Idom(); d != nil; d = d.Idom() {
@@ -308,8 +310,19 @@ func (fa *FuncAnalysis) guardsOfBlock(b *ssa.BasicBlock, depth int) []Guard {
 			t = t.Args[0]
 			pos = !pos
 		}
-		out = append(out, Guard{Cond: t, Pos: pos, If: iff})
+		g := Guard{Cond: t, Pos: pos, If: iff}
+		out = append(out, g)
 		out = append(out, fa.phiCorrelated(iff, e0, depth)...)
+		// a predicate helper of the module in the condition (`if k.isChargeable(asset, t)`): what its outcome implies
+		// holds as well (an extracted `a && b && c` gives a, b, c on the true edge)
+		if curEngine != nil && helperDepth < 2 && (t.Op == "call" || t.Op == "ncall") {
+			helperDepth++
+			for _, hg := range curEngine.helperGuards(g) {
+				hg.If = iff
+				out = append(out, hg)
+			}
+			helperDepth--
+		}
 	}
 	return out
 }
